@@ -279,6 +279,7 @@ type vfCall struct {
 	rec      *vfRec
 	attempts sync.Map // path -> *int (rerun bookkeeping)
 	cancel   context.CancelFunc
+	k        int    // index of this logical run among the concurrent runs of one compiled runnable (0 when alone)
 	id       string // run id (case id)
 	x0       string // name of the initial term: distinct per concurrent run, so cross-talk changes a value
 }
@@ -378,8 +379,8 @@ func (r *vfRun) nodeLambda(prefix string, sc *vfScenario, name string) *Lambda {
 				if rc.cancel != nil {
 					rc.cancel()
 				}
-			case "serr":
-				// the body succeeds; its output stream carries an error item after the first chunk (see below)
+			case "serr", "spanic":
+				// the body succeeds; its output stream carries an error item / a panicking convert (see below)
 			}
 		}
 		rc.rec.log(map[string]any{"ev": "done", "p": prefix, "n": name})
@@ -394,6 +395,29 @@ func (r *vfRun) nodeLambda(prefix string, sc *vfScenario, name string) *Lambda {
 			return map[string]any{"n": name, "i": vfNorm(in)}, nil
 		}
 		return map[string]any{name: map[string]any{"n": name, "i": vfNorm(in)}}, nil
+	}
+	if fail != nil && fail.Kind == "spanic" {
+		// the node's output stream is a lazily converted stream of 8 chunks whose convert function panics at the 7th:
+		// the forwarder goroutine must turn the panic into an error item even when its buffer is full
+		return StreamableLambda(func(ctx context.Context, in map[string]any) (*schema.StreamReader[map[string]any], error) {
+			rc := r.cur(ctx)
+			out, err := body(ctx, in)
+			if err != nil {
+				return nil, err
+			}
+			chunks := []map[string]any{out}
+			for j := 0; j < 7; j++ {
+				chunks = append(chunks, map[string]any{})
+			}
+			n := 0
+			return schema.StreamReaderWithConvert(schema.StreamReaderFromArray(chunks), func(m map[string]any) (map[string]any, error) {
+				n++
+				if n == 7 {
+					panic("verif injected panic at " + rc.id + "::" + path + " (stream convert)")
+				}
+				return m, nil
+			}), nil
+		})
 	}
 	if fail != nil && fail.Kind == "serr" {
 		return StreamableLambda(func(ctx context.Context, in map[string]any) (*schema.StreamReader[map[string]any], error) {
@@ -510,6 +534,8 @@ func (r *vfRun) branch(prefix string, idx int, b vfBranch) *GraphBranch {
 		if d >= len(b.Pol) {
 			d = len(b.Pol) - 1
 		}
+		// concurrent runs of one runnable take different branch outcomes (the rule judges by the observed decision)
+		d = (d + r.cur(ctx).k) % len(b.Pol)
 		chosen := b.Pol[d]
 		r.cur(ctx).rec.log(map[string]any{"ev": "branch", "p": prefix, "b": idx + 1, "i": in, "to": vfSorted(chosen)})
 		return chosen
@@ -584,6 +610,20 @@ func vfConcatMaps(sr *schema.StreamReader[map[string]any]) (map[string]any, erro
 			out[k] = v
 		}
 	}
+}
+
+func vfHasFail(sc *vfScenario, kind string) bool {
+	for _, f := range sc.Fail {
+		if f.Kind == kind {
+			return true
+		}
+	}
+	for _, sub := range sc.Sub {
+		if vfHasFail(sub, kind) {
+			return true
+		}
+	}
+	return false
 }
 
 func vfBare(sc *vfScenario, name string) bool {
@@ -880,7 +920,9 @@ type vfOutcome struct {
 }
 
 func (r *vfRun) call(rc *vfCall, run Runnable[map[string]any, map[string]any], paradigm string, opts []Option) vfOutcome {
-	ctx, cancel := context.WithCancel(context.WithValue(context.Background(), vfCallKey{}, rc))
+	// cancellation carries a cause: the run error must still match context.Canceled (ctx.Err()), whatever the cause is
+	ctx, cancelCause := context.WithCancelCause(context.WithValue(context.Background(), vfCallKey{}, rc))
+	cancel := func() { cancelCause(errors.New("verif cancellation cause")) }
 	rc.cancel = cancel
 	defer cancel()
 	ch := make(chan vfOutcome, 1)
@@ -909,6 +951,9 @@ func (r *vfRun) call(rc *vfCall, run Runnable[map[string]any, map[string]any], p
 				return
 			}
 			acc := map[string]any{}
+			if vfHasFail(r.sc, "spanic") {
+				time.Sleep(3 * time.Millisecond) // a lagging consumer: the forwarders' buffers fill up
+			}
 			for {
 				c, e := sr.Recv()
 				if e != nil {
@@ -1228,7 +1273,7 @@ func TestVerifConcurrent(t *testing.T) {
 			run, cerr := r.compile(store)
 			calls := make([]*vfCall, callers)
 			for k := range calls {
-				calls[k] = &vfCall{rec: &vfRec{}, id: fmt.Sprintf("%s#%d", sc.ID, k), x0: fmt.Sprintf("x%d", k)}
+				calls[k] = &vfCall{rec: &vfRec{}, k: k, id: fmt.Sprintf("%s#%d", sc.ID, k), x0: fmt.Sprintf("x%d", k)}
 				store.known["cp-"+calls[k].id] = true
 				line := vfCaseLine(sc)
 				line["id"] = calls[k].id
